@@ -45,9 +45,9 @@ TRUSTED_BASE = [
     "(the theorems are about every bijection that passes the check `isoCheck2`, never about the search; the model's backtracking search is "
     "compared with networkx' answer on every pair)",
     "'same compiled state' from 'same operation sequence on every register': proved for every semantics in which operations on disjoint quantum "
-    "registers commute (Properties/C15.iso_sound_same_compiled_state); that the stabilizer semantics is such a semantics is C13 "
-    "(stabilizer_ops_on_disjoint_registers_commute) — the two models of an operation (Export.Op here, Wire.SOp there) are not linked by a theorem; "
-    "the direct oracle below evaluates the compiled states themselves",
+    "registers commute (Properties/C15.iso_sound_same_compiled_state) and instantiated with C13's verified stabilizer semantics "
+    "(iso_sound_same_stabilizer_state) through the definitional translation `toSOp` (Proofs/CompareRepairStab.lean) of an executed operation of this "
+    "model into an operation of C13's compile sequence — that translation is read, not tested; the direct oracle below evaluates the compiled states themselves",
     "StabilizerCompiler + harness/tabutil.span_canon as the state oracle; harness, line protocol",
 ]
 ASSUMPTIONS = [
@@ -342,7 +342,7 @@ def check_pair(res, kind, c1, c2, rep, want_state=True):
                 res.violation(f"model:{k}:not-renEq", "the model of the repaired matcher reports isomorphic but no renaming makes the wires equal "
                               "(contradicts Properties/C15.iso_sound)", input=inp, model=rep.get("_raw", "")[:200])
         if rep.get("directl") != impl["direct"]:
-            # the operation-list form of `direct` (the one the theorems are about) must agree with the implementation too
+            # the operation-list form of `direct` (proved equal to the walk model for well-formed circuits) must agree with the implementation too
             res.exact_break("compare:direct (operation-list form)", input=inp, impl=impl["direct"], model=rep.get("directl"))
         res.traces_validated += 1
     same_regs = c1[:3] == c2[:3]
